@@ -82,16 +82,52 @@ def canon(x):
     return ("OBJ", type(x).__name__)
 
 
-_DTYPE_REL = {"float16": 4e-3, "float32": 1e-6, "complex64": 1e-6}
+# data held in low precision: the library multiplies by Python floats or numpy float64 scalars
+# depending on where a table row came from, which moves float16/float32 results by rounding noise
+# (times the conditioning of e.g. sin at large arguments); real defects are O(1) differences
+_DTYPE_TOL = {"float16": 5e-2, "float32": 1e-3, "complex64": 1e-3}
 
 
-def same(a, b, rel=1e-12):
+_SUBJECT_TOL = [0.0]
+
+
+def set_subject_tol(o):
+    """tolerance class of the case = precision of the data the ORIGINAL object holds (unyt turns
+    intN data into float of the same item size when converting)"""
+    t = 0.0
+    dt = getattr(o, "dtype", None)
+    if dt is not None:
+        if dt.itemsize <= 2:
+            t = 5e-2
+        elif dt.itemsize <= 4 or dt == np.dtype("complex64"):
+            t = 1e-3
+    _SUBJECT_TOL[0] = t
+
+
+_LOOSE = [False]
+
+
+def _dtclass(d):
+    return "float" if d.startswith("float") else "complex" if d.startswith("complex") else d
+
+
+def same(a, b, rel=1e-12, atol=0.0):
     if isinstance(a, tuple) and isinstance(b, tuple):
         if len(a) != len(b):
             return False
-        if len(a) >= 3 and a[0] in ("Q", "A", "N", "S") and isinstance(a[1], str):
-            rel = max(rel, _DTYPE_REL.get(a[1], 0.0))
-        return all(same(i, j, rel) for i, j in zip(a, b))
+        if (len(a) >= 3 and a[0] in ("Q", "A", "N", "S") and isinstance(a[1], str) and isinstance(b[1], str)
+                and b[0] == a[0]):
+            t = max(_DTYPE_TOL.get(a[1], 0.0), _SUBJECT_TOL[0])
+            if _LOOSE[0]:
+                if _dtclass(a[1]) != _dtclass(b[1]):
+                    return False
+                t = max(t, 5e-2)
+            elif a[1] != b[1]:
+                return False
+            k = 2 if a[0] == "S" else 3        # position of the numbers; unit signature stays strict
+            return all((same(i, j, t, t) if t else same(i, j)) if n == k else (n == 1 or same(i, j))
+                       for n, (i, j) in enumerate(zip(a, b)))
+        return all(same(i, j, rel, atol) for i, j in zip(a, b))
     if isinstance(a, bool) or isinstance(b, bool):
         return type(a) is type(b) and a == b
     if isinstance(a, (int, float, complex)) and isinstance(b, (int, float, complex)):
@@ -104,11 +140,23 @@ def same(a, b, rel=1e-12):
         if isinstance(a, complex):
             if cmath.isnan(a) and cmath.isnan(b):
                 return True
-            return abs(a - b) <= rel * max(abs(a), abs(b))
+            return abs(a - b) <= rel * max(abs(a), abs(b)) + atol
         if isinstance(a, float) and math.isnan(a) and math.isnan(b):
             return True
-        return abs(a - b) <= rel * max(abs(a), abs(b))
+        return abs(a - b) <= rel * max(abs(a), abs(b)) + atol
     return type(a) is type(b) and a == b
+
+
+def same_up_to_precision(a, b):
+    """the case holds float16/float32/int8/int16 data and the outcomes are equal except for the float
+    width of the result and a relative difference below 5 % (subnormal float32 scale factors)"""
+    if not _SUBJECT_TOL[0]:          # float64 / complex128 / int64 data: nothing is "only precision"
+        return False
+    _LOOSE[0] = True
+    try:
+        return same(a, b)
+    finally:
+        _LOOSE[0] = False
 
 
 def outcome(fn):
